@@ -5,15 +5,24 @@ from pyformlang.regular_expression import PythonRegex
 from ..core import CaseResult, outcome
 
 ID = "C07"
-LEVEL = "other"
+LEVEL = "translation_validation"
 RULE = ("random patterns generated from the documented subset (literals, escaped metacharacters, '.', sets and negated "
         "sets with ranges (incl. ranges between arbitrary printable characters, metacharacters as endpoints), alternation, nested groups, * + ? {m} {m,n} incl. m=0 and m=n, quantifier on group/set/escape, "
         "\\d \\s \\w) x all strings of length <=3 over a 7-character printable alphabet plus random longer ones and probe characters derived from the pattern (range endpoints, their neighbours, midpoints); "
-        "PythonRegex(p).accepts(s) is compared with re.fullmatch(p, s); patterns rejected by re.compile must be "
+        "PythonRegex(p).accepts(s) is compared with re.fullmatch(p, s); half of the patterns are generated as ASTs of the formal subset, for which the tree built by PythonRegex is also compared (whole language) with the verified reference translation; patterns rejected by re.compile must be "
         "rejected. Non-trivial: pattern with >=2 operators.")
-EXPLANATION = "PythonRegex is a chain of textual rewrites whose specification is CPython's own re engine, which cannot be stated in Lean; every generated (pattern, string) instance is decided exactly by re.fullmatch / re.compile as the property itself prescribes. No Lean theorem is claimed for this property in this round (see DESIGN.md 6 C07)."
-THEOREMS = []
+EXPLANATION = "CPython's re engine is the specification named by the property and cannot be stated in Lean. What is formal: a semantics of the documented subset (Pfl/Model/PyRegex.lean: Matches) with a reference translation into plain regular expressions proved to denote it (desugar_denote, matches_iff_Matches). Half of the cases are generated as ASTs of that subset: (1) the formal semantics is compared with re.fullmatch on every string (ties the Lean semantics to CPython), (2) the tree PythonRegex builds is compared with the reference translation by the verified language-equivalence oracle (whole language over string.printable, when the tree has at most 40 leaves), (3) accepts() is compared with re.fullmatch on the sampled strings. The other half are free-text patterns decided by re.fullmatch / re.compile only. The seven textual rewriting passes themselves are not modelled."
+THEOREMS = ["Pfl.PyRx.desugar_denote",
+            "Pfl.PyRx.matches_iff_Matches",
+            "Pfl.PyRx.desugar_chars",
+            "Pfl.PyRx.rep_iff",
+            "Pfl.PyRx.desugar_denote_needs_wellformed",
+            "Pfl.Rx.matches_iff",
+            "Pfl.Rx.thompson_lang",
+            "Pfl.ENFA.langDiff_none_iff",
+            "Pfl.ENFA.langDiff_some"]
 ALPHA = ["a", "b", "c", "1", " ", "-", "+"]
+CONTROLS = ["\n", "\t"]        # printable too (string.printable); tried as single characters and inside strings
 LITS = ["a", "b", "c", "1", "-", "\\+", "\\*", "\\.", "\\(", "\\)", "\\?", "\\|", "\\[", "\\]", " "]
 
 
@@ -98,10 +107,103 @@ def gen_pat(rng, depth=3):
     return a + q, na + 1
 
 
+# ---- second stream: patterns generated as ASTs of the formal subset (Pfl/Model/PyRegex.lean) ------------------
+import string
+UNIVERSE = string.printable
+META = ".^$*+?{}[]\\|()"
+LIT_POOL = ["a", "b", "c", "1", " ", "-", "_", "A", "z", "+", "*", ".", "(", ")", "?", "|", "[", "]", "{", "$", "^", "\\", "\t"]
+SET_POOL = ["a", "b", "c", "1", "9", " ", "_", "+", "*", "(", ")", "?", ".", "$", "-", "]", "^", "A", "Z", "~", "!"]
+
+
+def gen_ast(rng, depth):
+    if depth == 0 or rng.random() < 0.3:
+        r = rng.random()
+        if r < 0.5:
+            return ["lit", rng.choice(LIT_POOL)]
+        if r < 0.6:
+            return ["dot"]
+        if r < 0.7:
+            return ["short", rng.choice("dsw")]
+        items = []
+        for _ in range(rng.randint(1, 3)):
+            k = rng.random()
+            if k < 0.6:
+                items.append(["c", rng.choice(SET_POOL)])
+            else:
+                lo, hi = sorted(rng.sample(RANGE_ENDS, 2))
+                items.append(["r", lo, hi])
+        return ["set", rng.random() < 0.25, items]
+    k = rng.random()
+    if k < 0.35:
+        return ["cat", gen_ast(rng, depth - 1), gen_ast(rng, depth - 1)]
+    if k < 0.55:
+        return ["alt", gen_ast(rng, depth - 1), gen_ast(rng, depth - 1)]
+    a = gen_ast(rng, depth - 1)
+    q = rng.random()
+    if q < 0.2:
+        return ["star", a]
+    if q < 0.4:
+        return ["plus", a]
+    if q < 0.6:
+        return ["opt", a]
+    m = rng.randint(0, 3)
+    return ["rep", a, m, m if rng.random() < 0.4 else rng.randint(m, 3)]
+
+
+def render_item(it, first):
+    def esc(c, first):
+        if c in "[]\\" or (c == "^" and first) or c == "-":     # '[' too: CPython warns about a possible nested set
+            return "\\" + c
+        return c
+    if it[0] == "c":
+        return esc(it[1], first)
+    return esc(it[1], first) + "-" + esc(it[2], False)
+
+
+def render_ast(t, ctx="top"):
+    """ctx: top | cat (inside a concatenation) | q (operand of a quantifier)"""
+    k = t[0]
+    if k == "lit":
+        c = t[1]
+        return ("\\" + c) if c in META else c
+    if k == "dot":
+        return "."
+    if k == "short":
+        return "\\" + t[1]
+    if k == "set":
+        return "[" + ("^" if t[1] else "") + "".join(render_item(it, i == 0) for i, it in enumerate(t[2])) + "]"
+    if k == "cat":
+        s_ = render_ast(t[1], "cat") + render_ast(t[2], "cat")
+        return "(" + s_ + ")" if ctx == "q" else s_
+    if k == "alt":
+        s_ = render_ast(t[1], "top") + "|" + render_ast(t[2], "top")
+        return "(" + s_ + ")" if ctx != "top" else s_
+    inner = render_ast(t[1], "q")
+    if t[1][0] in ("star", "plus", "opt", "rep"):
+        inner = "(" + inner + ")"
+    if k == "star":
+        return inner + "*"
+    if k == "plus":
+        return inner + "+"
+    if k == "opt":
+        return inner + "?"
+    m, n = t[2], t[3]
+    return inner + ("{%d}" % m if m == n else "{%d,%d}" % (m, n))
+
+
+def ast_ops(t):
+    return 0 if t[0] in ("lit", "dot", "short") else 1 + sum(ast_ops(x) for x in t[1:] if isinstance(x, list) and x and isinstance(x[0], str) and x[0] in
+                                                          ("lit", "dot", "short", "set", "cat", "alt", "star", "plus", "opt", "rep"))
+
+
 def generate(rng, tier):
     while True:
-        p, n = gen_pat(rng, rng.choice([1, 2, 3]))
-        yield {"pattern": p, "ops": n, "sseed": rng.randrange(1 << 30)}
+        if rng.random() < 0.5:
+            p, n = gen_pat(rng, rng.choice([1, 2, 3]))
+            yield {"pattern": p, "ops": n, "sseed": rng.randrange(1 << 30)}
+        else:
+            t = gen_ast(rng, rng.choice([1, 2, 3]))
+            yield {"pattern": render_ast(t), "ast": t, "ops": ast_ops(t), "sseed": rng.randrange(1 << 30)}
 
 
 def run_case(case, drv):
@@ -132,10 +234,41 @@ def run_case(case, drv):
     rng = random.Random(case["sseed"])
     strs = ["".join(w) for n in range(0, 3) for w in itertools.product(ALPHA, repeat=n)]
     strs += ["".join(rng.choice(ALPHA) for _ in range(rng.randint(3, 5))) for _ in range(25)]
+    strs += CONTROLS + [a + c for a in ("a", "1") for c in CONTROLS] + list(case.get("extra_strings", []))
     probes = probe_chars(p)
     strs += [c for c in probes if c not in ALPHA]
     pool = ALPHA + probes
     strs += ["".join(rng.choice(pool) for _ in range(rng.randint(2, 4))) for _ in range(15)]
+    ast = case.get("ast")
+    if ast is not None:
+        from .. import rxdom as X
+        strs = [x for x in strs if all(c in UNIVERSE for c in x)]
+        m = drv.call("rx.py", pattern=ast, universe=UNIVERSE, strings=strs)
+        res.corr += 1
+        res.tag("ast_stream")
+        # (1) the formal semantics against CPython, string by string
+        for s_, mm in zip(strs, m["matches"]):
+            if (cre.fullmatch(s_) is not None) != mm:
+                res.corr_break("PyRx.Matches", "formal semantics of the subset differs from re.fullmatch",
+                               detail={"pattern": p, "ast": ast, "string": s_, "re": not mm, "model": mm})
+                return res
+        # (2) the tree PythonRegex builds against the reference translation: full language equivalence
+        st_t, tree = outcome(lambda: X.tree_of(pr))
+        if st_t == "ok" and len(X.symbols(tree)) <= 40:
+            from ..core import DrvError
+            try:
+                e = drv.call("rx.equiv", _timeout=6.0, t1=tree, t2=m["tree"])
+            except DrvError:
+                res.tag("equiv_too_big")
+                e = {"equiv": True}
+            res.evals += 1
+            res.tag("equiv_decided")
+            if not e["equiv"]:
+                w_ = "".join(e["word"] or [])
+                res.violation("accepts", "differs from re.fullmatch",
+                              detail={"pattern": p, "string": w_, "re": cre.fullmatch(w_) is not None,
+                                      "found_by": "language equivalence with the reference translation"}, scope=scope)
+                return res
     for s in strs:
         want = cre.fullmatch(s) is not None
         g = outcome(lambda s=s: pr.accepts(list(s)), limit=5.0)
